@@ -1,0 +1,35 @@
+/*
+ * myth_verif.h -- verification hooks (compiled in only with -DMYTH_VERIF)
+ *
+ * MYTH_VERIF_POINT(pt, a, b, v): a schedule/observation point; reports
+ *   point id pt, two object pointers and one observed value to the hook.
+ * MYTH_VERIF_SPIN(pt, a): marks one iteration of a busy-wait loop.
+ * Without -DMYTH_VERIF both expand to nothing.
+ */
+#pragma once
+#ifndef MYTH_VERIF_H_
+#define MYTH_VERIF_H_
+
+#ifdef MYTH_VERIF
+
+#ifdef __cplusplus
+extern "C" {
+#endif
+extern void (*g_myth_verif_hook)(int pt, const void * a, const void * b, long v);
+#ifdef __cplusplus
+}
+#endif
+
+#define MYTH_VERIF_POINT(pt, a, b, v) \
+  do { if (g_myth_verif_hook) g_myth_verif_hook((pt), (const void *)(a), (const void *)(b), (long)(v)); } while (0)
+#define MYTH_VERIF_SPIN(pt, a) \
+  do { if (g_myth_verif_hook) g_myth_verif_hook(-(pt), (const void *)(a), (const void *)0, 0L); } while (0)
+
+#else  /* !MYTH_VERIF */
+
+#define MYTH_VERIF_POINT(pt, a, b, v) ((void)0)
+#define MYTH_VERIF_SPIN(pt, a) ((void)0)
+
+#endif /* MYTH_VERIF */
+
+#endif /* MYTH_VERIF_H_ */
